@@ -94,6 +94,23 @@ func vcStartAudit() *vcAudit {
 	return a
 }
 
+// closesOfRec: the closes issued by the connection of rec since its OnPrepare started. Connection
+// objects of earlier trials (or earlier connections of this one) that have been garbage-collected
+// can have had the same address; their late closes may still land in this ledger.
+func (a *vcAudit) closesOfRec(rec *vcConnRec) []vcFDEv {
+	var first uint64
+	if evs := rec.events(); len(evs) > 0 {
+		first = evs[0].Seq
+	}
+	var out []vcFDEv
+	for _, e := range a.closesOf(rec.ID) {
+		if e.Seq > first {
+			out = append(out, e)
+		}
+	}
+	return out
+}
+
 func (a *vcAudit) closesOf(owner uintptr) []vcFDEv {
 	a.mu.Lock()
 	defer a.mu.Unlock()
@@ -529,7 +546,7 @@ func vcRunC05(t *vcTrial, cfg vc05Cfg) {
 	if msg := rec.checkCloseCallbacks(); msg != "" {
 		t.Violate("C05", "close_callbacks", "%s (history %v)", msg, rec.history())
 	}
-	closes := audit.closesOf(rec.ID)
+	closes := audit.closesOfRec(rec)
 	detached := vcInner(rec.Conn).detaching
 	// "not at all when detached" holds for a Detach that completed before the teardown reached the
 	// descriptor; a Detach called after the (peer-initiated) teardown finished cannot undo the close.
@@ -744,7 +761,7 @@ func vcRunC05Client(t *vcTrial, cfg vc05Cfg) {
 	if msg := rec.checkCloseCallbacks(); msg != "" {
 		t.Violate("C05", "close_callbacks", "client connection: %s (history %v)", msg, rec.history())
 	}
-	if closes := audit.closesOf(rec.ID); len(closes) != 1 {
+	if closes := audit.closesOfRec(rec); len(closes) != 1 {
 		t.Violate("C05", "descriptor_closes", "client connection: descriptor closed %d time(s), want 1", len(closes))
 	}
 	if n := audit.freeablesOf(opPtr, ownedSeq); n != 1 {
@@ -810,7 +827,7 @@ func vcRunC05PrepareClose(t *vcTrial, closes int, network string) {
 	} else if ne, ok := err.(net.Error); ok && ne.Timeout() {
 		t.Violate("C05", "descriptor_closes", "the connection was closed inside OnPrepare but its descriptor is still open 3s later (the peer sees no end-of-stream)")
 	}
-	if closesSeen := audit.closesOf(rec.ID); len(closesSeen) != 1 && !t.Violated() {
+	if closesSeen := audit.closesOfRec(rec); len(closesSeen) != 1 && !t.Violated() {
 		t.Violate("C05", "descriptor_closes", "close inside OnPrepare: descriptor closed %d time(s), want 1", len(closesSeen))
 	}
 	if n := audit.freeablesOf(opPtr, ownedSeq); n != 1 && !t.Violated() {
@@ -977,7 +994,7 @@ func vcRunC05RegisterFails(t *vcTrial) {
 	if msg := rec.checkCloseCallbacks(); msg != "" && !t.Violated() {
 		t.Violate("C05", "close_callbacks", "failed registration: %s (history %v)", msg, rec.history())
 	}
-	if n := len(audit.closesOf(rec.ID)); n != 1 && !t.Violated() {
+	if n := len(audit.closesOfRec(rec)); n != 1 && !t.Violated() {
 		t.Violate("C05", "descriptor_closes", "failed registration: descriptor %d closed %d time(s), want 1", rec.FD, n)
 	}
 	// ... by whichever owner: the accept path holds a second handle (the Conn it was given) on the
